@@ -37,7 +37,18 @@ declares a requirement, the class `C11W.S` of the resource theorems; if batchers
 sources or group devices exist, the conditions of the batcher / conservation theorems (`C17W`):
 scripts schedule failures of non-sinks only, every configured batch size is positive. -/
 def S4 (w : World) : Prop :=
-  (SC w ∧ NR w) ∧ (hasRes w = true → C11W.S w) ∧ (¬ NoBatch w → ScrB w ∧ C17W.SizesPos w)
+  (SC w ∧ NR w) ∧ (hasRes w = true → C11W.S w) ∧ (¬ NoBatch w → ScrB w ∧ C17W.SizesPos w) ∧
+    OneGrp w
+
+/-- **The scope of stages D, E, F (several groups)**: as `S4`, but instead of "there is one group
+only" (`OneGrp`) it suffices that the world is typed by group contexts (`C03Z.Typed cl w`, for a
+certificate `cl` — for instance the computed `C03Z.ctxInfer w`): groups used one after the other,
+the same group entered several times through different group paths, groups nested in groups. -/
+def S5 (cl : List (List Nat)) (w : World) : Prop :=
+  (SC w ∧ NR w) ∧ (hasRes w = true → C11W.S w) ∧ (¬ NoBatch w → ScrB w ∧ C17W.SizesPos w) ∧
+    (OneGrp w ∨ C03Z.Typed cl w)
+
+instance (cl : List (List Nat)) (w : World) : Decidable (S5 cl w) := by unfold S5; infer_instance
 
 instance (w : World) : Decidable (S4 w) := by unfold S4; infer_instance
 
@@ -73,12 +84,16 @@ def S2 (w : World) : Prop := S3 w ∧ NoBatch w
 instance (w : World) : Decidable (S2 w) := by unfold S2; infer_instance
 
 theorem S1.s2 {w : World} (h : S1 w) : S2 w :=
-  ⟨⟨⟨⟨h.sc, h.nr⟩, (fun hr => by rw [h.noRes] at hr; cases hr), fun hn => absurd h.noBatch hn⟩,
+  ⟨⟨⟨⟨h.sc, h.nr⟩, (fun hr => by rw [h.noRes] at hr; cases hr), (fun hn => absurd h.noBatch hn),
+    oneGrp_noGrp (noGroups_of_noBatch h.noBatch).noGrp⟩,
     noGroups_of_noBatch h.noBatch⟩, h.noBatch⟩
 
 theorem S2.s3 {w : World} (h : S2 w) : S3 w := h.1
 
 theorem S3.s4 {w : World} (h : S3 w) : S4 w := h.1
+
+theorem S4.s5 {w : World} (h : S4 w) (cl : List (List Nat)) : S5 cl w :=
+  ⟨h.1, h.2.1, h.2.2.1, Or.inl h.2.2.2⟩
 
 /-! ### the static conditions of C02 / C17W follow from the scope -/
 
@@ -108,6 +123,12 @@ structure GoodB (w : World) : Prop where
   c : ¬ NoBatch w → C17W.CI w
   /-- no script re-wires, or every device has been initialised -/
   i : IOK w
+  /-- there is one group, or the world is typed by group contexts and the stacks of the held parts
+  are typed -/
+  k : C03Z.GC w
+
+theorem oneGrp_of_noBatch {w : World} (h : NoBatch w) : OneGrp w :=
+  oneGrp_noGrp (noGroups_of_noBatch h).noGrp
 
 theorem GoodB.invB {w : World} (h : GoodB w) : InvB w := fun hnb => (h.c hnb).inv
 
@@ -140,9 +161,17 @@ theorem sizesPos_of_sw {w w' : World} (e : sw w' = sw w) (h : C17W.SizesPos w) :
 
 theorem S4.of_sw {w w' : World} (h : S4 w) (hsc : SC w') (r : SW w w') (r' : C02V.SS w w') : S4 w' :=
   ⟨⟨hsc, h.1.2.of_sw r⟩, fun hr => (h.2.1 (by rw [← hasRes_of_ss r']; exact hr)).of_ss r',
-    fun hn => by
-      have := h.2.2 (fun hb => hn ((noBatch_of_sw r.sw_eq).mpr hb))
-      exact ⟨scrB_of_sw r.sw_eq this.1, sizesPos_of_sw r.sw_eq this.2⟩⟩
+    (fun hn => by
+      have := h.2.2.1 (fun hb => hn ((noBatch_of_sw r.sw_eq).mpr hb))
+      exact ⟨scrB_of_sw r.sw_eq this.1, sizesPos_of_sw r.sw_eq this.2⟩), h.2.2.2.of_sw r.sw_eq⟩
+
+theorem S5.of_sw {cl : List (List Nat)} {w w' : World} (h : S5 cl w) (hsc : SC w') (r : SW w w')
+    (r' : C02V.SS w w') : S5 cl w' :=
+  ⟨⟨hsc, h.1.2.of_sw r⟩, fun hr => (h.2.1 (by rw [← hasRes_of_ss r']; exact hr)).of_ss r',
+    (fun hn => by
+      have := h.2.2.1 (fun hb => hn ((noBatch_of_sw r.sw_eq).mpr hb))
+      exact ⟨scrB_of_sw r.sw_eq this.1, sizesPos_of_sw r.sw_eq this.2⟩),
+    h.2.2.2.imp (fun h1 => h1.of_sw r.sw_eq) (fun h1 => h1.of_sw r.sw_eq)⟩
 
 theorem S3.of_sw {w w' : World} (h : S3 w) (hsc : SC w') (r : SW w w') (r' : C02V.SS w w') : S3 w' :=
   ⟨h.1.of_sw hsc r r', noGroups_of_sw r.sw_eq h.2⟩
@@ -151,13 +180,33 @@ theorem hasRes_of_swr' {w w' : World} (r : SWR w w') : hasRes w' = hasRes w := h
 
 theorem noBatch_of_swr' {w w' : World} (r : SWR w w') : NoBatch w' ↔ NoBatch w := noBatch_of_swr r.1
 
+theorem stat0_of_swr {w w' : World} (h : C02V.swr w' = C02V.swr w) (y : Nat) :
+    stat0 (w'.dev y) = stat0 (w.dev y) := by
+  have h1 : w'.devs.map stat0 = w.devs.map stat0 := congrArg Prod.fst h
+  have e : ∀ v : World, stat0 (v.dev y) = (v.devs.map stat0).getD y (stat0 default) :=
+    fun v => (getD_map stat0 v.devs y default).symm
+  rw [e, e, h1]
+
+theorem oneGrp_of_swr {w w' : World} (h : OneGrp w) (r : C02V.swr w' = C02V.swr w) : OneGrp w' := by
+  have hl : w'.devs.length = w.devs.length := by
+    have := congrArg (fun t => t.1.length) r
+    simpa [C02V.swr] using this
+  exact h.congr hl (fun y => stat0_kind (stat0_of_swr r y)) (fun y => stat0_group (stat0_of_swr r y))
+    (congrArg (fun t => t.2.2) r)
+
+/-- a world without one single group has group devices, hence carries the conservation invariant -/
+theorem GoodB.ci_of {w : World} (h : GoodB w) (h1 : ¬ OneGrp w) : C17W.CI w :=
+  h.c (fun hb => h1 (oneGrp_of_noBatch hb))
+
 theorem GoodB.step {w w' : World} {e : Event} (h : GoodB w) (hst : w.step = some (e, w')) :
     GoodB w' := by
   have r := swrw_step w w' e h.g.sc.nc hst
-  exact ⟨h.g.stepG h.invB h.settled h.i hst,
+  exact ⟨h.g.stepG h.invB h.settled h.i h.k hst,
     fun hr => C11W.inv_step w w' e (h.r (by rw [← hasRes_of_swr' r]; exact hr)) hst,
     fun hn => C17W.ci_step w w' e (h.c (fun hb => hn ((noBatch_of_swr' r).mpr hb))) hst,
-    h.i.step (istep_step hst)⟩
+    h.i.step (istep_step hst),
+    C03Z.gc_step h.k (fun h1 => oneGrp_of_swr h1 r.1) (fun h1 => ⟨(h.ci_of h1).inv, (h.ci_of h1).stat⟩)
+      (fun hn => (sw_step w w' e hn hst).sw_eq) hst⟩
 
 theorem GoodB.runLoop (n : Nat) : ∀ {w : World}, GoodB w → GoodB (runLoop n w) := by
   induction n with
@@ -165,9 +214,10 @@ theorem GoodB.runLoop (n : Nat) : ∀ {w : World}, GoodB w → GoodB (runLoop n 
     intro w h
     have r := swrw_runLoop 0 w h.g.sc.nc
     refine ⟨h.g.setErr _, fun hr => C11W.inv_runLoop 0 w (h.r ?_), fun hn => C17W.ci_runLoop 0 w (h.c ?_),
-      h.i.step (istep_runLoop 0 w)⟩
+      h.i.step (istep_runLoop 0 w), h.k.frame ?_ (C02V.sv_setErr ..) (setErr_parts ..)⟩
     · rw [← hasRes_of_swr' r]; exact hr
     · exact fun hb => hn ((noBatch_of_swr' r).mpr hb)
+    · exact C03Z.sw_of_swv (C02V.swv_setErr w _) (C02V.scr_setErr ..)
   | succ n ih =>
     intro w h
     unfold World.runLoop
@@ -182,7 +232,7 @@ theorem GoodB.runBegin {w : World} (h : GoodB w) (d : Int) : GoodB (w.runBegin d
     fun hr => C11W.inv_runBegin w d (h.r (by rw [← hasRes_of_ss (ss_runBegin w d)]; exact hr)),
     fun hn => C17W.ci_runBegin w d
       (h.c (fun hb => hn ((noBatch_of_sw (sw_runBegin w d).sw_eq).mpr hb))),
-    h.i.step (istep_runBegin w d)⟩
+    h.i.step (istep_runBegin w d), C03Z.gc_runBegin h.k d (sw_runBegin w d).sw_eq⟩
 
 /-! ### registered processors really cannot get their resources, or a check is pending -/
 
@@ -245,51 +295,26 @@ theorem no_check_of_advance {w : World} (hadv : ∀ e ∈ w.env.events, w.now < 
   omega
 
 /-- There is one group only: every group output an offer can reach owns the innermost group path
-of the part. -/
-theorem consS_of {w : World} (hs : SC w) : ∀ f x stk,
+of the part.  (Several groups: `C03Z.consS_of_ts`, from the typing of the stack.) -/
+theorem consS_of {w : World} (_ : SC w) (h1 : OneGrp w) : ∀ f x stk,
     ((∀ x, (w.dev x).kind ≠ .goutput) ∨ ∀ g ∈ stk, (w.dev g).kind = .gpath) →
-    consS f w x stk = true := by
-  intro f
-  induction f with
-  | zero => intro x stk _; rfl
-  | succ f ih =>
-    intro x stk hstk
-    unfold consS
-    cases hk : (w.dev x).kind <;> simp only []
-    case gate => exact List.all_eq_true.mpr (fun y _ => ih y stk hstk)
-    case ginput => exact List.all_eq_true.mpr (fun y _ => ih y stk hstk)
-    case gpath =>
-      refine ih _ _ (hstk.imp id (fun hstk g hg => ?_))
-      rcases List.mem_append.mp hg with hg | hg
-      · exact hstk g hg
-      · rw [List.mem_singleton] at hg; rw [hg]; exact hk
-    case goutput =>
-      cases hl : stk.getLast? with
-      | none => rfl
-      | some g =>
-        simp only []
-        have hstk : ∀ g ∈ stk, (w.dev g).kind = .gpath := hstk.resolve_left (fun h0 => h0 x hk)
-        have hg : (w.dev g).kind = .gpath := hstk g (List.mem_of_getLast? hl)
-        have hgl : g < w.devs.length := kind_lt' (by rw [hg]; decide)
-        have hxl : x < w.devs.length := kind_lt' (by rw [hk]; decide)
-        have ho := (hs.groupOK hgl).1 hg x (List.mem_range.mpr hxl) hk
-        rw [hg, ho]
-        simp only [beq_self_eq_true, Bool.true_and]
-        exact List.all_eq_true.mpr (fun y _ => ih y _ (Or.inr (fun g' hg' =>
-          hstk g' (List.dropLast_subset _ hg'))))
+    consS f w x stk = true := C03Z.consS_of_one h1
 
-/-- If no availability check is pending, whoever refuses in the invariant's sense really
-refuses. -/
+/-- If no availability check is pending, whoever refuses a HELD part in the invariant's sense
+really refuses it (`hgc`: there is one group, or the stacks of the held parts are typed). -/
 theorem real_of_R_of {w : World} (hg : G [] [] [] w) (hp : hasRes w = true → C11W.Pend w)
-    (hno : ¬ C11W.QueuedL w .rmCheck w.now pOtherHigh (-1)) (f x p : Nat)
+    (hgc : C03Z.GC w)
+    (hno : ¬ C11W.QueuedL w .rmCheck w.now pOtherHigh (-1)) (f : Nat) {d x p : Nat}
+    (hd : holdsD (w.dev d) = some p) (hx : x ∈ (w.dev d).down)
     (hr : wouldAcceptR f w x p = false) : wouldAccept f w x p = false :=
   wouldAcceptT_of_S (fun y hk hm => (registered_of hg hp y hk hm).resolve_right hno) f x _
-    (consS_of hg.sc f x _ (hg.stk.part p)) hr
+    (hgc.cs hg.stk (holdsD_lt hd) (holdsD_hl hd).2 (holdsD_mem_heldL hd) hx f) hr
 
 theorem GoodB.real_of_R {w : World} (h : GoodB w)
-    (hno : ¬ C11W.QueuedL w .rmCheck w.now pOtherHigh (-1)) (f x p : Nat)
+    (hno : ¬ C11W.QueuedL w .rmCheck w.now pOtherHigh (-1)) (f : Nat) {d x p : Nat}
+    (hd : holdsD (w.dev d) = some p) (hx : x ∈ (w.dev d).down)
     (hr : wouldAcceptR f w x p = false) : wouldAccept f w x p = false :=
-  real_of_R_of h.g (fun hr => (h.r hr).pend) hno f x p hr
+  real_of_R_of h.g (fun hr => (h.r hr).pend) h.k hno f hd hx hr
 
 /-! ### initialisation -/
 
